@@ -115,7 +115,7 @@ for nm, nb, vmax, crc, tier, to in (("emit_split_n5", 5, 2, False, "quick", 600)
                                     ("emit_split_n6", 6, 3, False, "thorough", 3000), ("emit_crc_n5", 5, 2, True, "thorough", 3000)):
     add(nm, "h_emit.c", "h_emit_split", {"C09": tier, "C05": tier, "C06": tier, "C01": tier, "C15": tier if crc else "thorough"},
         defines=["-DNB=%d" % nb, "-DVMAX=%d" % vmax] + ([] if crc else ["-DNO_CRC"]), extra_src=["crctab.c"],
-        cbmc=["--unwind", str(nb + 7), "--unwindset", "emit.0:%d,emit.1:%d,emit.2:%d,emit.3:%d,emit.4:%d" % (vmax + 2, vmax + 2, vmax + 2, vmax + 2, nb + 2)],
+        cbmc=["--unwind", str(nb + (nb // 5 + 1) * vmax + 5), "--unwindset", "emit.0:%d,emit.1:%d,emit.2:%d,emit.3:%d,emit.4:%d" % (vmax + 2, vmax + 2, vmax + 2, vmax + 2, nb + 2)],
         backend="kissat", timeout=to, mem_gb=8, functions=EMIT_FUNCS, witness_mode="any" if nb < 5 else "all",
         bounds="decoded block of <= %d bytes (byte values 0..%d, arbitrary in-range IBWT links), emitted through up to three output buffers of arbitrary sizes; %s"
                % (nb, vmax, "CRC compared" if crc else "CRC not compared in this query (see emit_crc_*)"),
